@@ -469,3 +469,172 @@ Print Assumptions C08_kernel_flathomogen_refines_model.
 
 Example C08_kernel_hyp_instances : nofZ F64 0 = n0 F64 /\ nofZ RR 0 = n0 RR /\ nofZ RN 0 = n0 RN.
 Proof. exact (conj HZ_F64 (conj HZ_RR HZ_RN)). Qed.
+
+(* ================================================================== *)
+(* C08 ITSELF on the regenerated program: the property theorems above *)
+(* transported to exec_fun .. program "c_aggregate" / "c_flathomogen" *)
+(* (Proofs/KernelDutils.v; kernel run directly: any buffer content, no *)
+(* int32 hypothesis).                                                 *)
+(* ================================================================== *)
+From Coq Require Import String Lia PrimFloat.
+From Hy Require Import Base.Num Base.MiniC Gen.KernelsAst Gen.Consts Gen.ConstsC08 Model.Dutils.
+From Hy Require Proofs.KernelDutils.
+Import ListNotations.
+Open Scope string_scope.
+Open Scope list_scope.
+Open Scope Z_scope.
+
+(* run_aggregate / run_flathomogen = the executions of the translated kernels *)
+Theorem C08_kernel_run_dutils :
+  forall (T : Type) (N : NumOps T) (X : NumLit T) (n : nat) (op maxnan : Z) 
+         (idx : list Z) (xs outbuf : list T) (ie : Z),
+       KernelDutils.run_aggregate N X n op maxnan idx xs outbuf ie =
+       exec_fun N X program (S n) "c_aggregate"
+         [AVI (zlen idx); AVI op; AVI maxnan; AVArrI idx; AVArrF xs; AVArrF outbuf; AVArrI [ie]] /\
+       KernelDutils.run_flathomogen N X n maxnan idx xs outbuf =
+       exec_fun N X program (S n) "c_flathomogen"
+         [AVI (zlen idx); AVI maxnan; AVArrI idx; AVArrF xs; AVArrF outbuf].
+Proof. exact @KernelDutils.run_dutils_is_exec. Qed.
+Print Assumptions C08_kernel_run_dutils.
+
+(* non-decreasing index, >= 1 value, every operator / maxnan / NaN placement: the translated c_aggregate returns 0, sets iend[0] to the number of groups and writes one value per group = reduce of the group, the rest of the buffer untouched *)
+Theorem C08_kernel_aggregate_spec :
+  forall (op maxnan : Z) (idx : list Z) (xs outbuf : list (option R)) (ie : Z) (n : nat),
+       Datatypes.length idx = Datatypes.length xs ->
+       (1 <= Datatypes.length xs)%nat ->
+       Datatypes.length outbuf = Datatypes.length idx ->
+       DutilsProofs.nondecr idx ->
+       (Datatypes.length idx < n)%nat ->
+       let res :=
+         map (fun kg : Z * list (option R) => DutilsProofs.reduce op maxnan (snd kg))
+           (DutilsProofs.runs (combine idx xs)) in
+       KernelDutils.run_aggregate RN XRN n op maxnan idx xs outbuf ie =
+       Ok
+         (RI 0,
+          [VArrI idx; VArrF xs; VArrF (res ++ skipn (Datatypes.length res) outbuf);
+           VArrI [Z.of_nat (Datatypes.length res)]]) /\
+       (Datatypes.length res <= Datatypes.length outbuf)%nat.
+Proof. exact @KernelDutils.kernel_aggregate_spec. Qed.
+Print Assumptions C08_kernel_aggregate_spec.
+
+(* operator sum, every group within maxnan: the values written add up to the sum of the non-missing inputs *)
+Theorem C08_kernel_aggregate_sum_conserved :
+  forall (maxnan : Z) (idx : list Z) (xs outbuf : list (option R)) (ie : Z) (n : nat),
+       Datatypes.length idx = Datatypes.length xs ->
+       (1 <= Datatypes.length xs)%nat ->
+       Datatypes.length outbuf = Datatypes.length idx ->
+       DutilsProofs.nondecr idx ->
+       (Datatypes.length idx < n)%nat ->
+       Forall (fun kg : Z * list (option R) => DutilsProofs.nmiss (snd kg) <= maxnan)
+         (DutilsProofs.runs (combine idx xs)) ->
+       exists outs : list R,
+         KernelDutils.run_aggregate RN XRN n 0 maxnan idx xs outbuf ie =
+         Ok
+           (RI 0,
+            [VArrI idx; VArrF xs; VArrF (map Some outs ++ skipn (Datatypes.length outs) outbuf);
+             VArrI [Z.of_nat (Datatypes.length outs)]]) /\
+         DutilsProofs.lsum outs = DutilsProofs.lsum (DutilsProofs.present xs).
+Proof. exact @KernelDutils.kernel_aggregate_sum_conserved. Qed.
+Print Assumptions C08_kernel_aggregate_sum_conserved.
+
+(* an index that decreases anywhere: positive return code, index / inputs / iend untouched (every arithmetic instance with (double)0 = 0, binary64 included) *)
+Theorem C08_kernel_aggregate_rejects_decreasing_index :
+  forall (T : Type) (N : NumOps T) (X : NumLit T) (op maxnan : Z) 
+         (idx : list Z) (xs outbuf : list T) (ie : Z) (n : nat),
+       nofZ N 0 = n0 N ->
+       Datatypes.length idx = Datatypes.length xs ->
+       Datatypes.length outbuf = Datatypes.length idx ->
+       DutilsProofs.decreases_somewhere idx ->
+       (Datatypes.length idx < n)%nat ->
+       exists (code : Z) (out' : list T),
+         0 < code /\
+         Datatypes.length out' = Datatypes.length outbuf /\
+         KernelDutils.run_aggregate N X n op maxnan idx xs outbuf ie =
+         Ok (RI code, [VArrI idx; VArrF xs; VArrF out'; VArrI [ie]]).
+Proof. exact @KernelDutils.kernel_aggregate_rejects_decreasing. Qed.
+Print Assumptions C08_kernel_aggregate_rejects_decreasing_index.
+
+(* the translated c_flathomogen returns 0 and writes one block per group = flat_group of the group: same length, and the same total when the group is within maxnan *)
+Theorem C08_kernel_flathomogen_preserves_group_totals :
+  forall (maxnan : Z) (idx : list Z) (xs outbuf : list (option R)) (n : nat),
+       Datatypes.length idx = Datatypes.length xs ->
+       (1 <= Datatypes.length xs)%nat ->
+       Datatypes.length outbuf = Datatypes.length idx ->
+       DutilsProofs.nondecr idx ->
+       (Datatypes.length idx < n)%nat ->
+       exists blocks : list (list (option R)),
+         KernelDutils.run_flathomogen RN XRN n maxnan idx xs outbuf =
+         Ok (RI 0, [VArrI idx; VArrF xs; VArrF (List.concat blocks)]) /\
+         Forall2
+           (fun (kg : Z * list (option R)) (b : list (option R)) =>
+            b = DutilsProofs.flat_group maxnan (snd kg) /\
+            Datatypes.length b = Datatypes.length (snd kg) /\
+            (DutilsProofs.nmiss (snd kg) <= maxnan ->
+             DutilsProofs.lsum (DutilsProofs.present b) =
+             DutilsProofs.lsum (DutilsProofs.present (snd kg))))
+           (DutilsProofs.runs (combine idx xs)) blocks.
+Proof. exact @KernelDutils.kernel_flathomogen_preserves_group_totals. Qed.
+Print Assumptions C08_kernel_flathomogen_preserves_group_totals.
+
+(* whole series: same length, missing stays missing, total of the non-missing values conserved when every group is within maxnan *)
+Theorem C08_kernel_flathomogen_total_conserved :
+  forall (maxnan : Z) (idx : list Z) (xs outbuf : list (option R)) (n : nat),
+       Datatypes.length idx = Datatypes.length xs ->
+       (1 <= Datatypes.length xs)%nat ->
+       Datatypes.length outbuf = Datatypes.length idx ->
+       DutilsProofs.nondecr idx ->
+       (Datatypes.length idx < n)%nat ->
+       exists out : list (option R),
+         KernelDutils.run_flathomogen RN XRN n maxnan idx xs outbuf =
+         Ok (RI 0, [VArrI idx; VArrF xs; VArrF out]) /\
+         Datatypes.length out = Datatypes.length xs /\
+         Forall2 (fun x o : option R => x = None -> o = None) xs out /\
+         (Forall (fun kg : Z * list (option R) => DutilsProofs.nmiss (snd kg) <= maxnan)
+            (DutilsProofs.runs (combine idx xs)) ->
+          DutilsProofs.lsum (DutilsProofs.present out) =
+          DutilsProofs.lsum (DutilsProofs.present xs)).
+Proof. exact @KernelDutils.kernel_flathomogen_total_conserved. Qed.
+Print Assumptions C08_kernel_flathomogen_total_conserved.
+
+(* decreasing index: positive return code (every arithmetic instance) *)
+Theorem C08_kernel_flathomogen_rejects_decreasing_index :
+  forall (T : Type) (N : NumOps T) (X : NumLit T) (maxnan : Z) (idx : list Z)
+         (xs outbuf : list T) (n : nat),
+       nofZ N 0 = n0 N ->
+       Datatypes.length idx = Datatypes.length xs ->
+       Datatypes.length outbuf = Datatypes.length idx ->
+       DutilsProofs.decreases_somewhere idx ->
+       (Datatypes.length idx < n)%nat ->
+       exists (code : Z) (out' : list T),
+         0 < code /\
+         Datatypes.length out' = Datatypes.length outbuf /\
+         KernelDutils.run_flathomogen N X n maxnan idx xs outbuf =
+         Ok (RI code, [VArrI idx; VArrF xs; VArrF out']).
+Proof. exact @KernelDutils.kernel_flathomogen_rejects_decreasing. Qed.
+Print Assumptions C08_kernel_flathomogen_rejects_decreasing_index.
+
+(* non-vacuity: the worked instance above (maximum, maxnan = 1) executed on the translated kernel *)
+Theorem C08_kernel_aggregate_example :
+  KernelDutils.run_aggregate RN XRN 6 2 1 DutilsProofs.ex_idx DutilsProofs.ex_xs
+         [Some 0%R; None; Some 0%R; Some 0%R; Some 0%R] 0 =
+       Ok
+         (RI 0,
+          [VArrI DutilsProofs.ex_idx; VArrF DutilsProofs.ex_xs;
+           VArrF [Some (-1)%R; Some (-2)%R; Some 4%R; Some 0%R; Some 0%R]; 
+           VArrI [3]]).
+Proof. exact @KernelDutils.kernel_aggregate_example. Qed.
+Print Assumptions C08_kernel_aggregate_example.
+
+(* non-vacuity of the rejection, binary64 *)
+Theorem C08_kernel_aggregate_decreasing_example :
+  exists (code : Z) (out' : list float),
+         0 < code /\
+         Datatypes.length out' = 3%nat /\
+         KernelDutils.run_aggregate F64 XF64 4 0 0 [199502; 199501; 199503]
+           [1%float; 2%float; 3%float] [0%float; 0%float; 0%float] 0 =
+         Ok
+           (RI code,
+            [VArrI [199502; 199501; 199503]; VArrF [1%float; 2%float; 3%float]; 
+             VArrF out'; VArrI [0]]).
+Proof. exact @KernelDutils.kernel_aggregate_decreasing_example. Qed.
+Print Assumptions C08_kernel_aggregate_decreasing_example.
